@@ -53,6 +53,25 @@ Theorem C11_total_reuse : forall prev prev' x,
 Proof. intros. split; [apply vp8_unmarshal_total|apply vp8_unmarshal_reuse]. Qed.
 Print Assumptions C11_total_reuse.
 
+(* ---- end to end, over histories: any sequence of non-empty frames through one payloader, every
+   emitted payload handed in order to one reused VP8Packet (vp8_run), gives back every frame as the
+   concatenation of the decoded payloads, with S on the first packet of a frame only, partition
+   index 0, N clear, and - with picture ids on - X and I set and the picture id of the k-th frame
+   equal to (first id + k) mod 2^15 in every one of its packets (frames_ok8 / frame_ok8) ---- *)
+From RTP Require Import Proofs.VpHistory.
+Theorem C11_history : forall frames st mtu prev, pid_ok st -> (if vp_enable st then 4 else 1) < mtu ->
+  Forall (fun f => f <> []) frames ->
+  exists r, vp8_run st mtu prev frames = Ok r /\ frames_ok8 (vp_enable st) (vp_pid st) frames r.
+Proof. exact vp8_history. Qed.
+Print Assumptions C11_history.
+
+Example C11_history_nonvacuous :
+  let prev := mkVp8Pkt 1 1 1 7 1 1 1 1 99 98 3 1 31 [9] in
+  exists r, vp8_run (mkVp8Pay true 32767) 6 prev [[1; 2; 3]; [4]] = Ok r /\
+    map (map v8_payload) r = [[[1; 2]; [3]]; [[4]]] /\
+    map (map v8_picture_id) r = [[32767; 32767]; [0]] /\ map (map v8_s) r = [[1; 0]; [1]].
+Proof. eexists. split; [vm_compute; reflexivity|repeat split]. Qed.
+
 Example C11_nonvacuous :
   vp8_payload (mkVp8Pay true 128) 6 (Some [1; 2; 3])
   = Ok (mkVp8Pay true 129, [Own [144; 128; 128; 128; 1; 2]; Own [128; 128; 128; 128; 3]]).
